@@ -26,8 +26,18 @@ func init() {
 			{Name: "retain", Weight: 4, Bubble: true, Run: c06Retain},
 			{Name: "sm-error-reports", Weight: 1, Bubble: true, Run: func(e *Env) { smaRun(e, "C06") }},
 		},
-		MustProbes: []string{"pooled-then-pooled", "retained-across-connection", "retained-across-goroutine", "boundary-1025-1044", "retained-forwarded", "unpadded-tail", "error-report-message-retained", "deep-nesting", "wrong-size-fixed-width"},
+		MustProbes: []string{"pooled-then-pooled", "retained-across-connection", "retained-across-goroutine", "boundary-1025-1044", "retained-forwarded", "unpadded-tail", "error-report-message-retained", "deep-nesting", "wrong-size-fixed-width", "unmarshal-into-reused-struct"},
 	})
+}
+
+// c06Scratch is what an application might unmarshal each message into.
+type c06Scratch struct {
+	Oct  *diam.AVP                 `avp:"Sim-Octets"`
+	Addr *diam.AVP                 `avp:"Sim-Address"`
+	Grp  *diam.AVP                 `avp:"Sim-Group"`
+	U8   *diam.AVP                 `avp:"Sim-UTF8"`
+	U32  datatype.Unsigned32       `avp:"Sim-U32"`
+	ID   datatype.DiameterIdentity `avp:"Sim-Identity"`
 }
 
 type retained struct {
@@ -185,8 +195,17 @@ func c06Retain(e *Env) {
 		sc := newSimConn(e, name, drawAddr(t, 3868), drawAddr(t, 40000+i))
 		mux := diam.NewServeMux()
 		answer := t.Chance(1, 2)
+		// the handler may parse every message into one scratch struct it reuses (the library
+		// fills the struct; it must not write through it into an earlier message)
+		useScratch := t.Chance(1, 2)
+		scratch := new(c06Scratch)
 		mux.HandleFunc("ALL", func(c diam.Conn, m *diam.Message) {
 			keep(name, m)
+			if useScratch {
+				if err := m.Unmarshal(scratch); err == nil {
+					e.Probe("unmarshal-into-reused-struct")
+				}
+			}
 			if answer {
 				a := m.Answer(2001)
 				a.NewAVP(avpSimOctets, 0, 0, datatype.OctetString("ack-ack-ack-ack"))
